@@ -159,12 +159,20 @@ func runC16(tb stat.TB, c c16Case) {
 		stop = true
 	}
 
-	root := s.mount()
-	dr := s.nfs(nfsx.ProcLookup, nfsx.ArgsDirop(root, "d"))
-	if dr.Status != nfsx.OK {
-		tb.Fatalf("harness: lookup d")
+	var root, dfh []byte
+	if guard(func() {
+		// (with the 40 ms request timeout the harness' own setup calls can time out on a starved machine: such a case
+		// is discarded, not judged)
+		root = s.mount()
+		dr := s.nfs(nfsx.ProcLookup, nfsx.ArgsDirop(root, "d"))
+		if dr.Status != nfsx.OK {
+			stat.Discard(false)
+			panic(abandon{"setup lookup not served"})
+		}
+		dfh = dr.Fh
+	}) {
+		return
 	}
-	dfh := dr.Fh
 
 	cleanup := func() {
 		for _, r := range parked {
